@@ -524,6 +524,19 @@ func (vf *VerifyFunc) indexVal(st *State, fr *Frame, x *ssa.Index) *Val {
 	return st.freshVal(x.Type(), "index")
 }
 
+
+// mapHeap returns the heap keys / sorts of the three arrays modelling maps of Go type t
+// (domain, values, length), keyed by the full map type so that differently typed maps never alias.
+func mapHeap(t types.Type) (dk, das, vk, vas, lk, ks, vs string) {
+	mt := t.Underlying().(*types.Map)
+	ks, vs = sortOf(mt.Key()), sortOf(mt.Elem())
+	id := typeKey(t.Underlying())
+	dk, vk, lk = "MD:"+id, "MV:"+id, "ML:"+id
+	das = "(Array Int (Array " + ks + " Bool))"
+	vas = "(Array Int (Array " + ks + " " + vs + "))"
+	return
+}
+
 func mapSorts(t types.Type) (ks, vs string) {
 	mt := t.Underlying().(*types.Map)
 	return sortOf(mt.Key()), sortOf(mt.Elem())
@@ -545,9 +558,9 @@ func (vf *VerifyFunc) lookup(st *State, fr *Frame, x *ssa.Lookup) *Val {
 		return st.freshVal(x.Type(), "lookup")
 	}
 	k = st.coerce(k, mt.Key())
-	dk, vk := "MD:"+ks, "MV:"+ks+":"+vs
-	dom := sel(sel(st.heapGet(dk, "(Array Int (Array "+ks+" Bool))"), m.Tm), k.Tm)
-	val := sel(sel(st.heapGet(vk, "(Array Int (Array "+ks+" "+vs+"))"), m.Tm), k.Tm)
+	dk, das, vk, vas, _, _, _ := mapHeap(x.X.Type())
+	dom := sel(sel(st.heapGet(dk, das), m.Tm), k.Tm)
+	val := sel(sel(st.heapGet(vk, vas), m.Tm), k.Tm)
 	// nil map: lookups yield zero
 	present := and(not(eq(m.Tm, "0")), dom)
 	v := &Val{T: mt.Elem(), S: vs, Tm: ite(present, val, zeroOfSort(vs))}
@@ -578,30 +591,28 @@ func (vf *VerifyFunc) mapUpdate(st *State, fr *Frame, x *ssa.MapUpdate) {
 	}
 	k = st.coerce(k, mt.Key())
 	v = st.coerce(v, mt.Elem())
-	st.mapStore(m.Tm, ks, vs, k.Tm, v.Tm)
+	st.mapStore(x.Map.Type(), m.Tm, k.Tm, v.Tm)
 }
 
-func (st *State) mapStore(m, ks, vs, k, v string) {
-	dk, vk := "MD:"+ks, "MV:"+ks+":"+vs
-	das, vas := "(Array Int (Array "+ks+" Bool))", "(Array Int (Array "+ks+" "+vs+"))"
+func (st *State) mapStore(t types.Type, m, k, v string) {
+	dk, das, vk, vas, lk, _, _ := mapHeap(t)
 	d := st.heapGet(dk, das)
 	was := sel(sel(d, m), k)
 	las := "(Array Int Int)"
-	l := st.heapGet("ML", las)
-	st.heapSet("ML", las, store(l, m, ite(was, sel(l, m), "(+ "+sel(l, m)+" 1)")))
+	l := st.heapGet(lk, las)
+	st.heapSet(lk, las, store(l, m, ite(was, sel(l, m), "(+ "+sel(l, m)+" 1)")))
 	st.heapSet(dk, das, store(d, m, store(sel(d, m), k, "true")))
 	vh := st.heapGet(vk, vas)
 	st.heapSet(vk, vas, store(vh, m, store(sel(vh, m), k, v)))
 }
 
-func (st *State) mapDelete(m, ks, k string) {
-	dk := "MD:" + ks
-	das := "(Array Int (Array " + ks + " Bool))"
+func (st *State) mapDelete(t types.Type, m, k string) {
+	dk, das, _, _, lk, _, _ := mapHeap(t)
 	d := st.heapGet(dk, das)
 	was := sel(sel(d, m), k)
 	las := "(Array Int Int)"
-	l := st.heapGet("ML", las)
-	st.heapSet("ML", las, store(l, m, ite(was, "(- "+sel(l, m)+" 1)", sel(l, m))))
+	l := st.heapGet(lk, las)
+	st.heapSet(lk, las, store(l, m, ite(was, "(- "+sel(l, m)+" 1)", sel(l, m))))
 	st.heapSet(dk, das, store(d, m, store(sel(d, m), k, "false")))
 }
 
@@ -683,14 +694,15 @@ func (vf *VerifyFunc) next(st *State, fr *Frame, x *ssa.Next) *Val {
 		if mt, isMap := m.T.Underlying().(*types.Map); isMap {
 			ks, vs := sortOf(mt.Key()), sortOf(mt.Elem())
 			if ks != "" && vs != "" && kv.S == ks {
-				dom := sel(sel(st.heapGet("MD:"+ks, "(Array Int (Array "+ks+" Bool))"), m.Tm), kv.Tm)
+				dk, das, vk, vas, lk, _, _ := mapHeap(m.T)
+				dom := sel(sel(st.heapGet(dk, das), m.Tm), kv.Tm)
 				st.assume(implies(ok, and(not(eq(m.Tm, "0")), dom)))
 				if vv.S == vs {
-					val := sel(sel(st.heapGet("MV:"+ks+":"+vs, "(Array Int (Array "+ks+" "+vs+"))"), m.Tm), kv.Tm)
+					val := sel(sel(st.heapGet(vk, vas), m.Tm), kv.Tm)
 					st.assume(implies(ok, eq(vv.Tm, val)))
 				}
 				// an empty map yields no element
-				st.assume(implies(eq(sel(st.heapGet("ML", "(Array Int Int)"), m.Tm), "0"), not(ok)))
+				st.assume(implies(eq(sel(st.heapGet(lk, "(Array Int Int)"), m.Tm), "0"), not(ok)))
 			}
 		}
 	}
